@@ -224,6 +224,9 @@ def bg_correct(raw, bg, df=None):
     if not (raw.shape == bg.shape == df.shape and list(get_spacing(raw)) == list(get_spacing(bg)) == list(get_spacing(df))):
         raise BadImage("raw and background images must have the same shape and spacing")
 
+    # unsigned camera counts wrap around when a dark count exceeds the signal
+    if raw.dtype.kind in 'ub':
+        raw, bg, df = [im.astype(float) for im in (raw, bg, df)]
     holo = (raw - df) / zero_filter(bg - df)
     holo = copy_metadata(raw, holo)
 
